@@ -113,5 +113,5 @@ def run(ctx, replay=None):
                             {"zones_minutes": ZONES,
                              "explanation": "every month/day of leap and non-leap years, the UTCTime/GeneralizedTime boundary years, the duration grid, "
                                             "the 7x7 own/profile shapes; fixed-offset zones only (no DST rules)"})
-    return ctx.finish("exploration", cov, ["time.Local is a fixed-offset zone set by the driver", "day-of-month overflow: Go-style normalisation and clamping both accepted",
+    return ctx.finish("exploration", cov, ["time.Local is a fixed-offset zone set by the driver", "day-of-month overflow: the sum of the civil fields is normalised (31 January + 1 month = 3 March); clamping to the end of the month is not accepted",
                                            "notBefore without `from` must lie between the driver's clock readings around the run (whole seconds)"])
